@@ -1,7 +1,7 @@
 // C14 harness: equal_pixels on run-time typed views (see bin.hpp):  equal <mode> T1 T2 w1 h1 w2 h2 s1 s2 dpos
 #include "bin.hpp"
 using namespace c14;
-struct EqualAlg { static constexpr bool needs_compat = true;
+struct EqualAlg { static constexpr bool needs_equal_dims = true; static constexpr bool needs_compat = true;
     template <class S, class D> std::string operator()(S const& s, D const& d) const { return gil::equal_pixels(s, d) ? " r=1" : " r=0"; } };
 int main() {
     return hv::run([](std::string const& line) -> std::string {
